@@ -1504,6 +1504,30 @@ class Interp:
                     for s2, r in it.invoke(name, list(a), s, b2, ctx_.fr.depth + 1):
                         yield s2, (r if is_abnormal(r) else z3.Not(r))
                 return ne
+            # serde::de::Visitor's documented defaults for the narrow numeric forms: widen and forward
+            widen = {'visit_i8': ('visit_i64', True), 'visit_i16': ('visit_i64', True), 'visit_i32': ('visit_i64', True),
+                     'visit_u8': ('visit_u64', False), 'visit_u16': ('visit_u64', False), 'visit_u32': ('visit_u64', False), 'visit_f32': ('visit_f64', None)}
+            if tname == 'Visitor' and method in widen and widen[method][0] in info.methods:
+                tgt, sg = widen[method]
+                name = self.pick_dup(info, tgt, b, head, targs)
+                b2 = dict(b)
+                b2['Self'] = self_ty
+                tenv2 = self.bind_fn_generics(name, b2, gargs, ctx)
+
+                def widened(it, ctx_, a, s, name=name, tenv2=tenv2, sg=sg):
+                    a = list(a)
+                    v = a[1]
+                    if sg is None:
+                        a[1] = z3.fpFPToFP(z3.RNE(), v, z3.Float64())
+                    else:
+                        w = 64 - v.size()
+                        a[1] = z3.SignExt(w, v) if sg else z3.ZeroExt(w, v)
+                    yield from it.invoke(name, a, s, tenv2, ctx_.fr.depth + 1)
+                return widened
+            # every other visit_* a visitor does not implement: serde's default is Err(invalid_type)
+            if tname == 'Visitor' and method.startswith('visit_') and method not in info.methods and method not in (
+                    'visit_string', 'visit_borrowed_str', 'visit_byte_buf', 'visit_borrowed_bytes') and 'expecting' in info.methods:
+                return lambda it, ctx_, a, s, method=method: iter([(s, it.err(Agg('DeError', ('invalid_type', method))))])
             # serde::de::Visitor's documented defaults: owned / borrowed forms forward to the borrowed-slice form
             fwd = {'visit_string': 'visit_str', 'visit_borrowed_str': 'visit_str', 'visit_byte_buf': 'visit_bytes', 'visit_borrowed_bytes': 'visit_bytes'}
             if tname == 'Visitor' and method in fwd and fwd[method] in info.methods:
